@@ -204,6 +204,126 @@ impl<'a, 'b> Adv<'a, 'b> {
         }
     }
 
+    /// T6 "victim fork": two Byzantine leaders in consecutive rounds r, r+1. Both equivocating
+    /// siblings A_r, B_r are shown to EVERY honest node (in opposite orders), A_{r+1} to one group and
+    /// B_{r+1} to the group holding the honest leader of r+2; QC(A_{r+1}) is revealed to a single
+    /// victim, which commits A_r and is then cut off from the other honest nodes. The Byzantine
+    /// authorities help the rest to a TC for r+1 with an old high QC, so that the honest leader of r+2
+    /// (whose high QC is QC(B_r)) extends B_r and the rest commits on that branch. On correct code at
+    /// most one of A_r, B_r can be certified (vote-once rule), so the script is harmless; it forks as
+    /// soon as an honest node can be brought to vote for two blocks of one round.
+    async fn victim_fork(&mut self) {
+        let cur = self.honest_round().max(1);
+        let mut target = None;
+        for r in cur + 1..cur + 10 {
+            if self.byz.contains(&self.w.leader(r)) && self.byz.contains(&self.w.leader(r + 1)) && self.honest.contains(&self.w.leader(r + 2)) {
+                target = Some(r);
+                break;
+            }
+        }
+        let r = match target {
+            Some(r) => r,
+            None => return,
+        };
+        if self.honest.len() < 3 {
+            return;
+        }
+        let (b1, b2, l2) = (self.w.leader(r), self.w.leader(r + 1), self.w.leader(r + 2));
+        self.stat("template-victim-fork");
+        let mut waited = 0;
+        while self.honest_round() + 1 < r && waited < 4_000 {
+            self.poll(5).await;
+            waited += 5;
+        }
+        let (_, qc) = match self.wait_for_votes(r - 1, 400).await {
+            Some(x) => x,
+            None => return,
+        };
+        // groups: s_b holds the honest leader of r+2 (and sometimes one more), s_a the rest with the victim
+        let others: Vec<usize> = self.honest.iter().copied().filter(|h| *h != l2).collect();
+        let mut s_b = vec![l2];
+        let mut s_a = others.clone();
+        if s_a.len() >= 3 && self.t.chance(1, 2) {
+            let k = self.t.below(s_a.len());
+            s_b.push(s_a.remove(k));
+        }
+        let victim = *self.t.pick(&s_a.clone());
+        self.note(json!({"adv": "T6-victim-fork", "round": r, "leaders": [b1, b2], "victim": victim, "group_a": s_a, "group_b": s_b}));
+        let (e1, e2) = (self.evil.get(0).cloned(), self.evil.get(1).cloned());
+        let a_r = self.w.block(b1, r, qc.clone(), None, e1.clone().into_iter().collect());
+        let b_r = self.w.block(b1, r, qc.clone(), None, e2.clone().into_iter().collect());
+        self.stat("equivocation");
+        self.send_block(b1, &a_r, &s_a.clone()).await;
+        self.send_block(b1, &b_r, &s_b.clone()).await;
+        self.poll(1).await;
+        self.send_block(b1, &b_r, &s_a.clone()).await;
+        self.send_block(b1, &a_r, &s_b.clone()).await;
+        self.stat("cross-delivery");
+        self.poll(2 * 30).await;
+        let qa = self.assemble_qc(&a_r.digest(), r);
+        let qb = self.assemble_qc(&b_r.digest(), r);
+        if qa.is_some() && qb.is_some() {
+            self.stat("two-certified-blocks-in-one-round");
+        }
+        let a_r1 = qa.map(|q| self.w.block(b2, r + 1, q, None, e1.clone().into_iter().collect()));
+        let b_r1 = qb.map(|q| self.w.block(b2, r + 1, q, None, e2.clone().into_iter().collect()));
+        if let Some(x) = &b_r1 {
+            self.send_block(b2, x, &s_b.clone()).await;
+        }
+        if let Some(x) = &a_r1 {
+            self.send_block(b2, x, &s_a.clone()).await;
+        }
+        self.poll(2 * 30).await;
+        // reveal QC(A_{r+1}) to the victim alone, in a carrier block of the next Byzantine-led round
+        let mut rr = r + 2;
+        while !self.byz.contains(&self.w.leader(rr)) {
+            rr += 1;
+        }
+        let bc = self.w.leader(rr);
+        if let Some(x) = &a_r1 {
+            if let Some(q) = self.assemble_qc(&x.digest(), r + 1) {
+                let c = self.w.block(bc, rr, q, None, Vec::new());
+                self.send_block(bc, &c, &[victim]).await;
+                self.stat("selective-reveal");
+            }
+        }
+        self.poll(10).await;
+        // cut the victim off from the other honest nodes
+        {
+            let now = sim::now_us();
+            let len = self.t.range(1_500, 2_500);
+            let mut c = self.ctl.borrow_mut();
+            c.drop_links.clear();
+            for h in self.honest.iter().filter(|h| **h != victim) {
+                for kind in [PortKind::Consensus, PortKind::Mempool] {
+                    c.drop_links.insert((victim as u32 + 1, *h as u32 + 1, kind));
+                    c.drop_links.insert((*h as u32 + 1, victim as u32 + 1, kind));
+                }
+            }
+            drop(c);
+            self.partition_until = now + len * 1000;
+            self.stat("partition");
+        }
+        // Byzantine timeouts for r+1 with the old high QC help the rest over the round
+        let rest: Vec<usize> = self.honest.iter().copied().filter(|h| *h != victim).collect();
+        for b in self.byz.clone() {
+            let t = self.w.timeout(b, r + 1, qc.clone());
+            self.pool.timeouts.entry(r + 1).or_default().insert(b, (t.signature.clone(), t.high_qc.round));
+            for h in &rest {
+                let _ = self.conns.consensus(b, *h, &ConsensusMessage::Timeout(t.clone())).await;
+            }
+        }
+        self.stat("byzantine-timeout");
+        // stay quiet while the rest moves on (the Byzantine-led rounds that follow just time out)
+        let quiet = self.t.range(900, 1_800);
+        let mut waited = 0;
+        while waited < quiet {
+            self.poll(20).await;
+            self.answer_sync().await;
+            waited += 20;
+        }
+    }
+
     /// T2 "late proposal after timeout": the Byzantine leader of r+1 gathers QC(B_r), withholds its
     /// proposal until the honest nodes timed out of r+1, then delivers it to victims only; later it
     /// reveals QC(B_{r+1}) to one victim inside a carrier block.
@@ -918,8 +1038,8 @@ fn run(case: &Case, _ctx: &Ctx) -> Outcome {
                 continue;
             }
             // 0 idle, 1 propose, 2 equivocate-late, 3 vote, 4 carrier, 5 bogus carrier, 6 timeouts, 7 wrong leader,
-            // 8 replay, 9 partition, 10 T1 double chain, 11 T2 late after timeout, 12 T4 fabricated chain
-            match adv.t.weighted(&[4, 8, 2, 8, 5, 1, 3, 1, 1, 2, 2, 2, 1]) {
+            // 8 replay, 9 partition, 10 T1 double chain, 11 T2 late after timeout, 12 T4 fabricated chain, 13 T6 victim fork
+            match adv.t.weighted(&[4, 8, 2, 8, 5, 1, 3, 1, 1, 2, 2, 2, 1, 2]) {
                 0 => {}
                 1 => adv.propose(false).await,
                 2 => adv.propose(true).await,
@@ -932,7 +1052,8 @@ fn run(case: &Case, _ctx: &Ctx) -> Outcome {
                 9 => adv.partition(),
                 10 => adv.double_chain().await,
                 11 => adv.late_after_timeout().await,
-                _ => adv.fabricated_chain().await,
+                12 => adv.fabricated_chain().await,
+                _ => adv.victim_fork().await,
             }
         }
         adv.ctl.borrow_mut().drop_links.clear();
@@ -1018,7 +1139,7 @@ fn run(case: &Case, _ctx: &Ctx) -> Outcome {
     });
     let committing = commits.values().filter(|v| v.len() >= 2).count();
     let attack = stats.contains_key("equivocation") || stats.contains_key("selective-reveal") || stats.contains_key("stale-timeout") || stats.contains_key("late-proposal");
-    for k in ["forged-tc", "voteless-certificate", "hopeful-sub-quorum-certificate", "template-double-chain", "template-late-after-timeout", "template-fabricated-chain", "two-certified-blocks-in-one-round", "equivocation", "double-vote", "selective-reveal", "bogus-certificate", "stale-timeout", "late-proposal", "partition", "wrong-leader-proposal", "replay", "cross-delivery"] {
+    for k in ["forged-tc", "voteless-certificate", "hopeful-sub-quorum-certificate", "template-double-chain", "template-victim-fork", "template-late-after-timeout", "template-fabricated-chain", "two-certified-blocks-in-one-round", "equivocation", "double-vote", "selective-reveal", "bogus-certificate", "stale-timeout", "late-proposal", "partition", "wrong-leader-proposal", "replay", "cross-delivery"] {
         if stats.contains_key(k) {
             out.class(k);
         }
